@@ -14,6 +14,7 @@ package main
 import (
 	"context"
 	"encoding/hex"
+	"encoding/json"
 	"errors"
 	"fmt"
 	"math/big"
@@ -32,29 +33,51 @@ import (
 	"verifharness/lib"
 )
 
+// ids is a list of member indexes, rendered in JSON as numbers (a plain []uint8 would be base64).
+type ids []uint8
+
+func (l ids) MarshalJSON() ([]byte, error) {
+	v := make([]int, len(l))
+	for i, x := range l {
+		v[i] = int(x)
+	}
+	return json.Marshal(v)
+}
+func (l *ids) UnmarshalJSON(b []byte) error {
+	var v []int
+	if err := json.Unmarshal(b, &v); err != nil {
+		return err
+	}
+	*l = nil
+	for _, x := range v {
+		*l = append(*l, uint8(x))
+	}
+	return nil
+}
+
 type input struct {
 	Kind string `json:"kind"` // fate | resolve | tail
 	// member and its local GJKR result
-	Me     uint8   `json:"me"`
-	KeyIdx int     `json:"key_idx"` // local group public key = G2 generator * (KeyIdx+1); -1 = nil key
-	Size   int     `json:"size"`    // number of members of the GJKR group
-	Marked []uint8 `json:"marked"`  // members marked inactive (even positions) / disqualified (odd) locally
+	Me     uint8 `json:"me"`
+	KeyIdx int   `json:"key_idx"` // local group public key = G2 generator * (KeyIdx+1); -1 = nil key
+	Size   int   `json:"size"`    // number of members of the GJKR group
+	Marked ids   `json:"marked"`  // members marked inactive (even positions) / disqualified (odd) locally
 	// chain configuration
 	GroupSize       int    `json:"group_size"`
 	HonestThreshold int    `json:"honest_threshold"`
 	Step            uint64 `json:"step"`
 	Start           uint64 `json:"start"`
 	// chain history
-	WaiterErr  bool    `json:"waiter_err"`
-	HasEvent   bool    `json:"has_event"`
-	EventBlock uint64  `json:"event_block"`
-	EventKey   string  `json:"event_key"` // hex
-	Misbehaved []uint8 `json:"misbehaved"`
+	WaiterErr  bool   `json:"waiter_err"`
+	HasEvent   bool   `json:"has_event"`
+	EventBlock uint64 `json:"event_block"`
+	EventKey   string `json:"event_key"` // hex
+	Misbehaved ids    `json:"misbehaved"`
 	// tail
 	PublishOK bool     `json:"publish_ok"`
 	Selected  []string `json:"selected"`
 	// resolve
-	Operating []uint8 `json:"operating"`
+	Operating ids `json:"operating"`
 }
 
 // ---------------------------------------------------------------- fakes
@@ -694,6 +717,21 @@ func main() {
 			}
 		}
 		randomHistory(r, &in)
+		if r.Bool() && in.KeyIdx >= 0 && in.Size > 0 {
+			// a history in which the member can stay: accepted result with its key, in time,
+			// listing only a few other members
+			in.WaiterErr, in.HasEvent, in.EventKey = false, true, keyHex(in.KeyIdx)
+			if t := timeoutBlock(&in); in.EventBlock > t || r.Chance(1, 10) {
+				in.EventBlock = t
+			}
+			var mis []uint8
+			for _, m := range in.Misbehaved {
+				if m != in.Me && len(mis) < in.Size-in.HonestThreshold {
+					mis = append(mis, m)
+				}
+			}
+			in.Misbehaved = mis
+		}
 		run(in, em, fmt.Sprintf("%s-%d", in.Kind, i))
 	}
 
